@@ -3,8 +3,11 @@
    aliasing effects and documented panics; the xrand Sample functions return min(k, n) items
    taken from distinct positions of the input and Shuffle returns a permutation.
 
-   Only statements live here; each is closed by [exact] of a lemma proved in Pure/Proofs*.v and
-   followed by Print Assumptions.  The statements are about the executable models of
+   Only statements live here; each is closed by [exact] of a lemma proved in Pure/Proofs*.v.
+   Every section ends with a Theorem that is literally the conjunction of the section's
+   statements (its type is computed from them), followed by Print Assumptions: one assumption
+   check per section covers every statement of the section (running it on each of the 100+
+   statements separately costs half a minute on every check).  The statements are about the executable models of
    Pure/{Slices,Sort,Maps,Misc,Rand}.v (layer M), which the check ties to the Go code on every
    run (Pure/Corr.v, harness_pure).
 
@@ -28,7 +31,7 @@ From Juniper Require Import Common.Base Pure.Config Pure.Slices Pure.Sort Pure.M
 From Juniper Require Pure.ProofsSlicesA Pure.ProofsSlicesB Pure.ProofsSlicesC Pure.ProofsSort Pure.ProofsMaps Pure.ProofsMisc Pure.ProofsRand.
 
 (* ================================================================== xslices: Partition, RemoveUnordered, Unique, UniqueInPlace, Reverse *)
-Theorem C19_partition_spec : forall (f : Z -> bool) (s s' : list Z) (r : Z),
+Lemma C19_partition_spec : forall (f : Z -> bool) (s s' : list Z) (r : Z),
     partition f s = (r, s') ->
     Permutation s s' /\
     0 <= r <= zlen s /\
@@ -37,7 +40,7 @@ Theorem C19_partition_spec : forall (f : Z -> bool) (s s' : list Z) (r : Z),
     (forall x, In x (zskipn r s') -> f x = true).
 Proof. exact ProofsSlicesA.partition_spec. Qed.
 
-Theorem C19_remove_unordered_spec : forall (s : list Z) (idx n : Z),
+Lemma C19_remove_unordered_spec : forall (s : list Z) (idx n : Z),
     (0 <= idx /\ 0 <= n /\ idx + n <= zlen s ->
        exists ret, remove_unordered s idx n = Ok (ret, ret ++ zeros n) /\
                    zlen ret = zlen s - n /\
@@ -46,37 +49,35 @@ Theorem C19_remove_unordered_spec : forall (s : list Z) (idx n : Z),
     (~ (0 <= idx /\ 0 <= n /\ idx + n <= zlen s) -> remove_unordered s idx n = Panic PIndex).
 Proof. exact ProofsSlicesA.remove_unordered_spec. Qed.
 
-Theorem C19_nub_props : forall s,
+Lemma C19_nub_props : forall s,
     NoDup (nub s) /\ (forall x, In x (nub s) <-> In x s) /\
     
     (forall s1 x s2, s = s1 ++ x :: s2 -> ~ In x s1 -> exists n1 n2, nub s = n1 ++ x :: n2 /\ (forall y, In y n1 <-> In y s1)).
 Proof. exact ProofsSlicesA.nub_props. Qed.
 
-Theorem C19_unique_spec : forall s, unique s = nub s.
+Lemma C19_unique_spec : forall s, unique s = nub s.
 Proof. exact ProofsSlicesA.unique_spec. Qed.
 
-Theorem C19_unique_in_place_spec : forall s,
+Lemma C19_unique_in_place_spec : forall s,
     unique_in_place s = (nub s, nub s ++ zeros (zlen s - zlen (nub s))).
 Proof. exact ProofsSlicesA.unique_in_place_spec. Qed.
 
-Theorem C19_reverse_spec : forall s, reverse s = rev s.
+Lemma C19_reverse_spec : forall s, reverse s = rev s.
 Proof. exact ProofsSlicesA.reverse_spec. Qed.
 
-Print Assumptions C19_partition_spec.
-Print Assumptions C19_remove_unordered_spec.
-Print Assumptions C19_nub_props.
-Print Assumptions C19_unique_spec.
-Print Assumptions C19_unique_in_place_spec.
-Print Assumptions C19_reverse_spec.
+(* the conjunction of the 6 statements above; the framework runs Print Assumptions on it *)
+Theorem C19_xslices_partition_remove_unique_reverse : ltac:(let t := type of (conj C19_partition_spec (conj C19_remove_unordered_spec (conj C19_nub_props (conj C19_unique_spec (conj C19_unique_in_place_spec C19_reverse_spec))))) in exact t).
+Proof. exact (conj C19_partition_spec (conj C19_remove_unordered_spec (conj C19_nub_props (conj C19_unique_spec (conj C19_unique_in_place_spec C19_reverse_spec))))). Qed.
+Print Assumptions C19_xslices_partition_remove_unique_reverse.
 
 (* ================================================================== xslices: Chunk, Runs, Shrink, Grow, Insert, Remove *)
-Theorem C19_chunk_panics : forall s c, c <= 0 -> chunk true true s c = Panic PNeg.
+Lemma C19_chunk_panics : forall s c, c <= 0 -> chunk true true s c = Panic PNeg.
 Proof. exact ProofsSlicesB.chunk_panics. Qed.
 
-Theorem C19_chunk_spec : forall s c, 0 < c -> chunk true true s c = Ok (chunk_ranges (zlen s) c).
+Lemma C19_chunk_spec : forall s c, 0 < c -> chunk true true s c = Ok (chunk_ranges (zlen s) c).
 Proof. exact ProofsSlicesB.chunk_spec. Qed.
 
-Theorem C19_chunk_ranges_props : forall (s : list Z) c, 0 < c ->
+Lemma C19_chunk_ranges_props : forall (s : list Z) c, 0 < c ->
     let rs := chunk_ranges (zlen s) c in
     concat (map (slice_of s) rs) = s /\
     zlen rs = (zlen s + c - 1) / c /\
@@ -87,20 +88,20 @@ Theorem C19_chunk_ranges_props : forall (s : list Z) c, 0 < c ->
     (s = [] -> rs = []).
 Proof. exact ProofsSlicesB.chunk_ranges_props. Qed.
 
-Theorem C19_chunk_current_agrees : forall s c, 0 < c -> zlen s + c - 1 < 2 ^ 63 ->
+Lemma C19_chunk_current_agrees : forall s c, 0 < c -> zlen s + c - 1 < 2 ^ 63 ->
     chunk false false s c = chunk true true s c.
 Proof. exact ProofsSlicesB.chunk_current_agrees. Qed.
 
-Theorem C19_chunk_negative_refuted : exists s c, c <= 0 /\ chunk false false s c = Ok [].
+Lemma C19_chunk_negative_refuted : exists s c, c <= 0 /\ chunk false false s c = Ok [].
 Proof. exact ProofsSlicesB.chunk_negative_refuted. Qed.
 
-Theorem C19_chunk_overflow_refuted : exists s c, 0 < c < 2 ^ 63 /\ chunk false false s c = Panic PNeg.
+Lemma C19_chunk_overflow_refuted : exists s c, 0 < c < 2 ^ 63 /\ chunk false false s c = Panic PNeg.
 Proof. exact ProofsSlicesB.chunk_overflow_refuted. Qed.
 
-Theorem C19_runs_spec : forall s same, map (slice_of s) (runs true s same) = runs_of same s.
+Lemma C19_runs_spec : forall s same, map (slice_of s) (runs true s same) = runs_of same s.
 Proof. exact ProofsSlicesB.runs_spec. Qed.
 
-Theorem C19_runs_ranges_tile : forall s same,
+Lemma C19_runs_ranges_tile : forall s same,
     let rs := runs true s same in
     (forall r, In r rs -> 0 <= fst r < snd r /\ snd r <= zlen s) /\
     (forall i r1 r2, nth_error rs i = Some r1 -> nth_error rs (S i) = Some r2 -> snd r1 = fst r2) /\
@@ -108,7 +109,7 @@ Theorem C19_runs_ranges_tile : forall s same,
     (s = [] -> rs = []).
 Proof. exact ProofsSlicesB.runs_ranges_tile. Qed.
 
-Theorem C19_runs_of_props : forall same s,
+Lemma C19_runs_of_props : forall same s,
     concat (runs_of same s) = s /\
     (forall l, In l (runs_of same s) -> l <> [] /\ chain same l) /\
     
@@ -116,18 +117,18 @@ Theorem C19_runs_of_props : forall same s,
         same (last l1 0) (hd 0 l2) = false).
 Proof. exact ProofsSlicesB.runs_of_props. Qed.
 
-Theorem C19_runs_of_transitive : forall same s,
+Lemma C19_runs_of_transitive : forall same s,
     (forall a b c, same a b = true -> same b c = true -> same a c = true) ->
     forall l l1 a l2 b l3, In l (runs_of same s) -> l = l1 ++ a :: l2 ++ b :: l3 -> same a b = true.
 Proof. exact ProofsSlicesB.runs_of_transitive. Qed.
 
-Theorem C19_runs_refuted : exists s, map (slice_of s) (runs false s Z.eqb) <> runs_of Z.eqb s.
+Lemma C19_runs_refuted : exists s, map (slice_of s) (runs false s Z.eqb) <> runs_of Z.eqb s.
 Proof. exact ProofsSlicesB.runs_refuted. Qed.
 
-Theorem C19_runs_current_agrees : forall x y t same, same x y = true -> runs false (x :: y :: t) same = runs true (x :: y :: t) same.
+Lemma C19_runs_current_agrees : forall x y t same, same x y = true -> runs false (x :: y :: t) same = runs true (x :: y :: t) same.
 Proof. exact ProofsSlicesB.runs_current_agrees. Qed.
 
-Theorem C19_shrink_spec : forall s extra n,
+Lemma C19_shrink_spec : forall s extra n,
     (0 <= n -> exists cap alias, shrink s extra n = Ok (s, cap, alias) /\
                  cap <= zlen s + n /\
                  (alias = true <-> zlen s + zlen extra <= zlen s + n) /\
@@ -135,13 +136,13 @@ Theorem C19_shrink_spec : forall s extra n,
     (n < 0 -> exists c, shrink s extra n = Panic c).
 Proof. exact ProofsSlicesB.shrink_spec. Qed.
 
-Theorem C19_grow_spec : forall s extra n,
+Lemma C19_grow_spec : forall s extra n,
     (0 <= n -> exists lb alias, grow s extra n = Ok (s, lb, alias) /\ zlen s + n <= lb /\
                  (alias = true <-> n <= zlen extra) /\ (alias = true -> lb = zlen s + zlen extra)) /\
     (n < 0 -> grow s extra n = Panic PNeg).
 Proof. exact ProofsSlicesB.grow_spec. Qed.
 
-Theorem C19_insert_spec : forall s extra i v,
+Lemma C19_insert_spec : forall s extra i v,
     (0 <= i <= zlen s ->
        let res := zfirstn i s ++ v ++ zskipn i s in
        exists alias after, insert s extra i v = Ok (res, alias, after) /\
@@ -151,213 +152,180 @@ Theorem C19_insert_spec : forall s extra i v,
     (~ (0 <= i <= zlen s) -> insert s extra i v = Panic PIndex).
 Proof. exact ProofsSlicesB.insert_spec. Qed.
 
-Theorem C19_remove_spec : forall s idx n,
+Lemma C19_remove_spec : forall s idx n,
     (0 <= idx /\ 0 <= n /\ idx + n <= zlen s ->
        let ret := zfirstn idx s ++ zskipn (idx + n) s in
        remove s idx n = Ok (ret, ret ++ zeros n)) /\
     (~ (0 <= idx /\ 0 <= n /\ idx + n <= zlen s) -> remove s idx n = Panic PIndex).
 Proof. exact ProofsSlicesB.remove_spec. Qed.
 
-Print Assumptions C19_chunk_panics.
-Print Assumptions C19_chunk_spec.
-Print Assumptions C19_chunk_ranges_props.
-Print Assumptions C19_chunk_current_agrees.
-Print Assumptions C19_chunk_negative_refuted.
-Print Assumptions C19_chunk_overflow_refuted.
-Print Assumptions C19_runs_spec.
-Print Assumptions C19_runs_ranges_tile.
-Print Assumptions C19_runs_of_props.
-Print Assumptions C19_runs_of_transitive.
-Print Assumptions C19_runs_refuted.
-Print Assumptions C19_runs_current_agrees.
-Print Assumptions C19_shrink_spec.
-Print Assumptions C19_grow_spec.
-Print Assumptions C19_insert_spec.
-Print Assumptions C19_remove_spec.
+(* the conjunction of the 16 statements above; the framework runs Print Assumptions on it *)
+Theorem C19_xslices_chunk_runs_shrink_insert_remove : ltac:(let t := type of (conj C19_chunk_panics (conj C19_chunk_spec (conj C19_chunk_ranges_props (conj C19_chunk_current_agrees (conj C19_chunk_negative_refuted (conj C19_chunk_overflow_refuted (conj C19_runs_spec (conj C19_runs_ranges_tile (conj C19_runs_of_props (conj C19_runs_of_transitive (conj C19_runs_refuted (conj C19_runs_current_agrees (conj C19_shrink_spec (conj C19_grow_spec (conj C19_insert_spec C19_remove_spec))))))))))))))) in exact t).
+Proof. exact (conj C19_chunk_panics (conj C19_chunk_spec (conj C19_chunk_ranges_props (conj C19_chunk_current_agrees (conj C19_chunk_negative_refuted (conj C19_chunk_overflow_refuted (conj C19_runs_spec (conj C19_runs_ranges_tile (conj C19_runs_of_props (conj C19_runs_of_transitive (conj C19_runs_refuted (conj C19_runs_current_agrees (conj C19_shrink_spec (conj C19_grow_spec (conj C19_insert_spec C19_remove_spec))))))))))))))). Qed.
+Print Assumptions C19_xslices_chunk_runs_shrink_insert_remove.
 
 (* ================================================================== xslices: All, Any, Index*, LastIndex*, Count*, Fill, Clear, Clone, Equal*, Join, Map, Reduce, Repeat, Group, Compact*, Filter* *)
-Theorem C19_all_spec : forall f s, all f s = true <-> (forall x, In x s -> f x = true).
+Lemma C19_all_spec : forall f s, all f s = true <-> (forall x, In x s -> f x = true).
 Proof. exact ProofsSlicesC.all_spec. Qed.
 
-Theorem C19_any_spec : forall f s, any f s = true <-> (exists x, In x s /\ f x = true).
+Lemma C19_any_spec : forall f s, any f s = true <-> (exists x, In x s /\ f x = true).
 Proof. exact ProofsSlicesC.any_spec. Qed.
 
-Theorem C19_index_func_spec : forall f s,
+Lemma C19_index_func_spec : forall f s,
     let r := index_func f s in
     (r = -1 /\ forall x, In x s -> f x = false) \/
     (0 <= r < zlen s /\ f (znth s r) = true /\ forall j, 0 <= j < r -> f (znth s j) = false).
 Proof. exact ProofsSlicesC.index_func_spec. Qed.
 
-Theorem C19_index_spec : forall s v,
+Lemma C19_index_spec : forall s v,
     let r := index s v in
     (r = -1 /\ ~ In v s) \/ (0 <= r < zlen s /\ znth s r = v /\ forall j, 0 <= j < r -> znth s j <> v).
 Proof. exact ProofsSlicesC.index_spec. Qed.
 
-Theorem C19_last_index_func_spec : forall f s,
+Lemma C19_last_index_func_spec : forall f s,
     let r := last_index_func f s in
     (r = -1 /\ forall x, In x s -> f x = false) \/
     (0 <= r < zlen s /\ f (znth s r) = true /\ forall j, r < j < zlen s -> f (znth s j) = false).
 Proof. exact ProofsSlicesC.last_index_func_spec. Qed.
 
-Theorem C19_last_index_spec : forall s v,
+Lemma C19_last_index_spec : forall s v,
     let r := last_index s v in
     (r = -1 /\ ~ In v s) \/ (0 <= r < zlen s /\ znth s r = v /\ forall j, r < j < zlen s -> znth s j <> v).
 Proof. exact ProofsSlicesC.last_index_spec. Qed.
 
-Theorem C19_count_func_spec : forall f s, count_func f s = zlen (filter f s).
+Lemma C19_count_func_spec : forall f s, count_func f s = zlen (filter f s).
 Proof. exact ProofsSlicesC.count_func_spec. Qed.
 
-Theorem C19_count_spec : forall s x, count s x = Z.of_nat (count_occ Z.eq_dec s x).
+Lemma C19_count_spec : forall s x, count s x = Z.of_nat (count_occ Z.eq_dec s x).
 Proof. exact ProofsSlicesC.count_spec. Qed.
 
-Theorem C19_fill_spec : forall s x, fill s x = zrepeat x (zlen s).
+Lemma C19_fill_spec : forall s x, fill s x = zrepeat x (zlen s).
 Proof. exact ProofsSlicesC.fill_spec. Qed.
 
-Theorem C19_clear_spec : forall s, clear s = zeros (zlen s).
+Lemma C19_clear_spec : forall s, clear s = zeros (zlen s).
 Proof. exact ProofsSlicesC.clear_spec. Qed.
 
-Theorem C19_clone_spec : forall s, clone s = s.
+Lemma C19_clone_spec : forall s, clone s = s.
 Proof. exact ProofsSlicesC.clone_spec. Qed.
 
-Theorem C19_equal_spec : forall a b, equal a b = true <-> a = b.
+Lemma C19_equal_spec : forall a b, equal a b = true <-> a = b.
 Proof. exact ProofsSlicesC.equal_spec. Qed.
 
-Theorem C19_equal_func_spec : forall eq a b, equal_func eq a b = true <-> Forall2 (fun x y => eq x y = true) a b.
+Lemma C19_equal_func_spec : forall eq a b, equal_func eq a b = true <-> Forall2 (fun x y => eq x y = true) a b.
 Proof. exact ProofsSlicesC.equal_func_spec. Qed.
 
-Theorem C19_join_spec : forall ins, join ins = concat ins.
+Lemma C19_join_spec : forall ins, join ins = concat ins.
 Proof. exact ProofsSlicesC.join_spec. Qed.
 
-Theorem C19_map_spec : forall f s, map_ f s = map f s.
+Lemma C19_map_spec : forall f s, map_ f s = map f s.
 Proof. exact ProofsSlicesC.map_spec. Qed.
 
-Theorem C19_reduce_spec : forall f s init, reduce f s init = fold_left f s init.
+Lemma C19_reduce_spec : forall f s init, reduce f s init = fold_left f s init.
 Proof. exact ProofsSlicesC.reduce_spec. Qed.
 
-Theorem C19_repeat_spec : forall x n,
+Lemma C19_repeat_spec : forall x n,
     (n < 0 -> repeat_ x n = Panic PNeg) /\
     (0 <= n -> repeat_ x n = Ok (repeat x (Z.to_nat n)) /\ zlen (repeat x (Z.to_nat n)) = n).
 Proof. exact ProofsSlicesC.repeat_spec. Qed.
 
-Theorem C19_group_spec : forall f s,
+Lemma C19_group_spec : forall f s,
     map fst (group f s) = nub (map f s) /\
     (forall k l, In (k, l) (group f s) -> l = filter (fun x => f x =? k) s /\ l <> []).
 Proof. exact ProofsSlicesC.group_spec. Qed.
 
-Theorem C19_compact_in_place_func_spec : forall eq s,
+Lemma C19_compact_in_place_func_spec : forall eq s,
     compact_in_place_func eq s = (compact_of eq s, compact_of eq s ++ zeros (zlen s - zlen (compact_of eq s))).
 Proof. exact ProofsSlicesC.compact_in_place_func_spec. Qed.
 
-Theorem C19_compact_func_spec : forall eq s, compact_func eq s = compact_of eq s.
+Lemma C19_compact_func_spec : forall eq s, compact_func eq s = compact_of eq s.
 Proof. exact ProofsSlicesC.compact_func_spec. Qed.
 
-Theorem C19_compact_in_place_spec : forall s,
+Lemma C19_compact_in_place_spec : forall s,
     compact_in_place s = (compact_of Z.eqb s, compact_of Z.eqb s ++ zeros (zlen s - zlen (compact_of Z.eqb s))).
 Proof. exact ProofsSlicesC.compact_in_place_spec. Qed.
 
-Theorem C19_compact_spec : forall s, compact s = compact_of Z.eqb s.
+Lemma C19_compact_spec : forall s, compact s = compact_of Z.eqb s.
 Proof. exact ProofsSlicesC.compact_spec. Qed.
 
-Theorem C19_compact_of_eqb_props : forall s,
+Lemma C19_compact_of_eqb_props : forall s,
     (forall l1 a b l2, compact_of Z.eqb s = l1 ++ a :: b :: l2 -> a <> b) /\
     (forall x, In x (compact_of Z.eqb s) <-> In x s) /\
     hd_error (compact_of Z.eqb s) = hd_error s.
 Proof. exact ProofsSlicesC.compact_of_eqb_props. Qed.
 
-Theorem C19_filter_in_place_spec : forall keep s,
+Lemma C19_filter_in_place_spec : forall keep s,
     filter_in_place keep s = (filter keep s, filter keep s ++ zeros (zlen s - zlen (filter keep s))).
 Proof. exact ProofsSlicesC.filter_in_place_spec. Qed.
 
-Theorem C19_filter_spec : forall keep s, filter_ keep s = filter keep s.
+Lemma C19_filter_spec : forall keep s, filter_ keep s = filter keep s.
 Proof. exact ProofsSlicesC.filter_spec. Qed.
 
-Print Assumptions C19_all_spec.
-Print Assumptions C19_any_spec.
-Print Assumptions C19_index_func_spec.
-Print Assumptions C19_index_spec.
-Print Assumptions C19_last_index_func_spec.
-Print Assumptions C19_last_index_spec.
-Print Assumptions C19_count_func_spec.
-Print Assumptions C19_count_spec.
-Print Assumptions C19_fill_spec.
-Print Assumptions C19_clear_spec.
-Print Assumptions C19_clone_spec.
-Print Assumptions C19_equal_spec.
-Print Assumptions C19_equal_func_spec.
-Print Assumptions C19_join_spec.
-Print Assumptions C19_map_spec.
-Print Assumptions C19_reduce_spec.
-Print Assumptions C19_repeat_spec.
-Print Assumptions C19_group_spec.
-Print Assumptions C19_compact_in_place_func_spec.
-Print Assumptions C19_compact_func_spec.
-Print Assumptions C19_compact_in_place_spec.
-Print Assumptions C19_compact_spec.
-Print Assumptions C19_compact_of_eqb_props.
-Print Assumptions C19_filter_in_place_spec.
-Print Assumptions C19_filter_spec.
+(* the conjunction of the 25 statements above; the framework runs Print Assumptions on it *)
+Theorem C19_xslices_simple_compact_filter : ltac:(let t := type of (conj C19_all_spec (conj C19_any_spec (conj C19_index_func_spec (conj C19_index_spec (conj C19_last_index_func_spec (conj C19_last_index_spec (conj C19_count_func_spec (conj C19_count_spec (conj C19_fill_spec (conj C19_clear_spec (conj C19_clone_spec (conj C19_equal_spec (conj C19_equal_func_spec (conj C19_join_spec (conj C19_map_spec (conj C19_reduce_spec (conj C19_repeat_spec (conj C19_group_spec (conj C19_compact_in_place_func_spec (conj C19_compact_func_spec (conj C19_compact_in_place_spec (conj C19_compact_spec (conj C19_compact_of_eqb_props (conj C19_filter_in_place_spec C19_filter_spec)))))))))))))))))))))))) in exact t).
+Proof. exact (conj C19_all_spec (conj C19_any_spec (conj C19_index_func_spec (conj C19_index_spec (conj C19_last_index_func_spec (conj C19_last_index_spec (conj C19_count_func_spec (conj C19_count_spec (conj C19_fill_spec (conj C19_clear_spec (conj C19_clone_spec (conj C19_equal_spec (conj C19_equal_func_spec (conj C19_join_spec (conj C19_map_spec (conj C19_reduce_spec (conj C19_repeat_spec (conj C19_group_spec (conj C19_compact_in_place_func_spec (conj C19_compact_func_spec (conj C19_compact_in_place_spec (conj C19_compact_spec (conj C19_compact_of_eqb_props (conj C19_filter_in_place_spec C19_filter_spec)))))))))))))))))))))))). Qed.
+Print Assumptions C19_xslices_simple_compact_filter.
 
 (* ================================================================== xsort: comparators, SliceIsSorted, Search, Merge, MergeSlices, MinK (any strict weak order, ties included) *)
-Theorem C19_greater_spec : forall less a b, greater less a b = less b a.
+Lemma C19_greater_spec : forall less a b, greater less a b = less b a.
 Proof. exact ProofsSort.greater_spec. Qed.
 
-Theorem C19_less_or_equal_spec : forall less a b, less_or_equal less a b = negb (less b a).
+Lemma C19_less_or_equal_spec : forall less a b, less_or_equal less a b = negb (less b a).
 Proof. exact ProofsSort.less_or_equal_spec. Qed.
 
-Theorem C19_greater_or_equal_spec : forall less a b, greater_or_equal less a b = negb (less a b).
+Lemma C19_greater_or_equal_spec : forall less a b, greater_or_equal less a b = negb (less a b).
 Proof. exact ProofsSort.greater_or_equal_spec. Qed.
 
-Theorem C19_equal_spec_ : forall less a b, equal_ less a b = true <-> (less a b = false /\ less b a = false).
+Lemma C19_equal_spec_ : forall less a b, equal_ less a b = true <-> (less a b = false /\ less b a = false).
 Proof. exact ProofsSort.equal_spec_. Qed.
 
-Theorem C19_reverse_less_spec : forall less, strict_weak less -> strict_weak (reverse_less less) /\
+Lemma C19_reverse_less_spec : forall less, strict_weak less -> strict_weak (reverse_less less) /\
     (forall a b, reverse_less less a b = less b a).
 Proof. exact ProofsSort.reverse_less_spec. Qed.
 
-Theorem C19_less_compare_spec : forall less a b, strict_weak less ->
+Lemma C19_less_compare_spec : forall less a b, strict_weak less ->
     (less_compare less a b = -1 <-> less a b = true) /\
     (less_compare less a b = 1 <-> less b a = true) /\
     (less_compare less a b = 0 <-> (less a b = false /\ less b a = false)) /\
     less_compare less b a = - less_compare less a b.
 Proof. exact ProofsSort.less_compare_spec. Qed.
 
-Theorem C19_ordered_less_spec : forall a b, ordered_less a b = true <-> a < b.
+Lemma C19_ordered_less_spec : forall a b, ordered_less a b = true <-> a < b.
 Proof. exact ProofsSort.ordered_less_spec. Qed.
 
-Theorem C19_slice_is_sorted_adjacent : forall less x,
+Lemma C19_slice_is_sorted_adjacent : forall less x,
     slice_is_sorted less x = true <-> (forall i, 0 < i < zlen x -> less (znth x i) (znth x (i - 1)) = false).
 Proof. exact ProofsSort.slice_is_sorted_adjacent. Qed.
 
-Theorem C19_slice_is_sorted_spec : forall less x, strict_weak less ->
+Lemma C19_slice_is_sorted_spec : forall less x, strict_weak less ->
     (slice_is_sorted less x = true <-> nondecreasing less x).
 Proof. exact ProofsSort.slice_is_sorted_spec. Qed.
 
-Theorem C19_search_contract : forall less x item,
+Lemma C19_search_contract : forall less x item,
     let f := fun i => less item (znth x i) || negb (less (znth x i) item) in
     let r := search less x item in
     0 <= r <= zlen x /\ (r < zlen x -> f r = true) /\ (0 < r -> f (r - 1) = false).
 Proof. exact ProofsSort.search_contract. Qed.
 
-Theorem C19_search_spec : forall less x item, strict_weak less -> nondecreasing less x ->
+Lemma C19_search_spec : forall less x item, strict_weak less -> nondecreasing less x ->
     let r := search less x item in
     0 <= r <= zlen x /\
     (forall i, 0 <= i < r -> less (znth x i) item = true) /\
     (forall i, r <= i < zlen x -> less (znth x i) item = false).
 Proof. exact ProofsSort.search_spec. Qed.
 
-Theorem C19_merge_spec : forall less ins, strict_weak less ->
+Lemma C19_merge_spec : forall less ins, strict_weak less ->
     exists out, merge less ins = Ok out /\
                 Permutation out (join ins) /\
                 ((forall l, In l ins -> nondecreasing less l) -> nondecreasing less out).
 Proof. exact ProofsSort.merge_spec. Qed.
 
-Theorem C19_merge_slices_spec : forall less outcap ins, strict_weak less ->
+Lemma C19_merge_slices_spec : forall less outcap ins, strict_weak less ->
     exists out, merge_slices less outcap ins = Ok (out, (0 <? zlen (join ins)) && (zlen (join ins) <=? outcap)) /\
                 Permutation out (join ins) /\
                 ((forall l, In l ins -> nondecreasing less l) -> nondecreasing less out).
 Proof. exact ProofsSort.merge_slices_spec. Qed.
 
-Theorem C19_min_k_spec : forall less items k, strict_weak less ->
+Lemma C19_min_k_spec : forall less items k, strict_weak less ->
     exists out rest, min_k less items k = Ok out /\
                 zlen out = Z.min (Z.max k 0) (zlen items) /\
                 nondecreasing less out /\
@@ -365,82 +333,72 @@ Theorem C19_min_k_spec : forall less items k, strict_weak less ->
                 (forall o r, In o out -> In r rest -> less r o = false).
 Proof. exact ProofsSort.min_k_spec. Qed.
 
-Print Assumptions C19_greater_spec.
-Print Assumptions C19_less_or_equal_spec.
-Print Assumptions C19_greater_or_equal_spec.
-Print Assumptions C19_equal_spec_.
-Print Assumptions C19_reverse_less_spec.
-Print Assumptions C19_less_compare_spec.
-Print Assumptions C19_ordered_less_spec.
-Print Assumptions C19_slice_is_sorted_adjacent.
-Print Assumptions C19_slice_is_sorted_spec.
-Print Assumptions C19_search_contract.
-Print Assumptions C19_search_spec.
-Print Assumptions C19_merge_spec.
-Print Assumptions C19_merge_slices_spec.
-Print Assumptions C19_min_k_spec.
+(* the conjunction of the 14 statements above; the framework runs Print Assumptions on it *)
+Theorem C19_xsort : ltac:(let t := type of (conj C19_greater_spec (conj C19_less_or_equal_spec (conj C19_greater_or_equal_spec (conj C19_equal_spec_ (conj C19_reverse_less_spec (conj C19_less_compare_spec (conj C19_ordered_less_spec (conj C19_slice_is_sorted_adjacent (conj C19_slice_is_sorted_spec (conj C19_search_contract (conj C19_search_spec (conj C19_merge_spec (conj C19_merge_slices_spec C19_min_k_spec))))))))))))) in exact t).
+Proof. exact (conj C19_greater_spec (conj C19_less_or_equal_spec (conj C19_greater_or_equal_spec (conj C19_equal_spec_ (conj C19_reverse_less_spec (conj C19_less_compare_spec (conj C19_ordered_less_spec (conj C19_slice_is_sorted_adjacent (conj C19_slice_is_sorted_spec (conj C19_search_contract (conj C19_search_spec (conj C19_merge_spec (conj C19_merge_slices_spec C19_min_k_spec))))))))))))). Qed.
+Print Assumptions C19_xsort.
 
 (* ================================================================== xmaps: sets and maps by membership/lookup, for every iteration order of the inputs *)
-Theorem C19_set_from_slice_spec : forall items,
+Lemma C19_set_from_slice_spec : forall items,
     NoDup (set_from_slice items) /\ (forall k, In k (set_from_slice items) <-> In k items).
 Proof. exact ProofsMaps.set_from_slice_spec. Qed.
 
-Theorem C19_set_add_spec : forall s k, NoDup s -> NoDup (set_add s k) /\ (forall x, In x (set_add s k) <-> x = k \/ In x s).
+Lemma C19_set_add_spec : forall s k, NoDup s -> NoDup (set_add s k) /\ (forall x, In x (set_add s k) <-> x = k \/ In x s).
 Proof. exact ProofsMaps.set_add_spec. Qed.
 
-Theorem C19_set_remove_spec : forall s k, NoDup s -> NoDup (set_remove s k) /\ (forall x, In x (set_remove s k) <-> x <> k /\ In x s).
+Lemma C19_set_remove_spec : forall s k, NoDup s -> NoDup (set_remove s k) /\ (forall x, In x (set_remove s k) <-> x <> k /\ In x s).
 Proof. exact ProofsMaps.set_remove_spec. Qed.
 
-Theorem C19_set_contains_spec : forall s k, set_contains s k = true <-> In k s.
+Lemma C19_set_contains_spec : forall s k, set_contains s k = true <-> In k s.
 Proof. exact ProofsMaps.set_contains_spec. Qed.
 
-Theorem C19_union_spec : forall sets,
+Lemma C19_union_spec : forall sets,
     NoDup (union sets) /\ (forall k, In k (union sets) <-> exists s, In s sets /\ In k s).
 Proof. exact ProofsMaps.union_spec. Qed.
 
-Theorem C19_intersection_spec : forall sets,
+Lemma C19_intersection_spec : forall sets,
     NoDup (intersection sets) /\
     (sets = [] -> intersection sets = []) /\
     (sets <> [] -> forall k, In k (intersection sets) <-> (forall s, In s sets -> In k s)).
 Proof. exact ProofsMaps.intersection_spec. Qed.
 
-Theorem C19_intersects_spec : forall sets,
+Lemma C19_intersects_spec : forall sets,
     intersects sets = true <-> (sets <> [] /\ exists k, forall s, In s sets -> In k s).
 Proof. exact ProofsMaps.intersects_spec. Qed.
 
-Theorem C19_difference_spec : forall a b,
+Lemma C19_difference_spec : forall a b,
     NoDup (difference a b) /\ (forall k, In k (difference a b) <-> In k a /\ ~ In k b).
 Proof. exact ProofsMaps.difference_spec. Qed.
 
-Theorem C19_union_order_independent : forall sets sets', Forall2 (@Permutation Z) sets sets' ->
+Lemma C19_union_order_independent : forall sets sets', Forall2 (@Permutation Z) sets sets' ->
     forall k, In k (union sets) <-> In k (union sets').
 Proof. exact ProofsMaps.union_order_independent. Qed.
 
-Theorem C19_intersection_order_independent : forall sets sets', Forall2 (@Permutation Z) sets sets' ->
+Lemma C19_intersection_order_independent : forall sets sets', Forall2 (@Permutation Z) sets sets' ->
     forall k, In k (intersection sets) <-> In k (intersection sets').
 Proof. exact ProofsMaps.intersection_order_independent. Qed.
 
-Theorem C19_reverse_map_spec : forall m, is_map m ->
+Lemma C19_reverse_map_spec : forall m, is_map m ->
     NoDup (map fst (reverse_map m)) /\
     (forall v l, In (v, l) (reverse_map m) -> l <> [] /\ NoDup l /\ forall k, In k l <-> In (k, v) m) /\
     (forall k v, In (k, v) m -> exists l, In (v, l) (reverse_map m)).
 Proof. exact ProofsMaps.reverse_map_spec. Qed.
 
-Theorem C19_reverse_single_spec : forall m r ok, is_map m -> reverse_single m = (r, ok) ->
+Lemma C19_reverse_single_spec : forall m r ok, is_map m -> reverse_single m = (r, ok) ->
     is_map r /\
     (ok = true <-> NoDup (map snd m)) /\
     (forall v k, mget r v = Some k -> In (k, v) m) /\
     (forall k v, In (k, v) m -> exists k', mget r v = Some k').
 Proof. exact ProofsMaps.reverse_single_spec. Qed.
 
-Theorem C19_to_index_spec : forall keys,
+Lemma C19_to_index_spec : forall keys,
     is_map (to_index keys) /\
     (forall k i, mget (to_index keys) k = Some i ->
         0 <= i < zlen keys /\ znth keys i = k /\ forall j, i < j < zlen keys -> znth keys j <> k) /\
     (forall k, In k keys -> exists i, mget (to_index keys) k = Some i).
 Proof. exact ProofsMaps.to_index_spec. Qed.
 
-Theorem C19_from_keys_and_values_spec : forall keys values,
+Lemma C19_from_keys_and_values_spec : forall keys values,
     (zlen keys <> zlen values -> exists c, from_keys_and_values keys values = Panic c) /\
     (zlen keys = zlen values -> exists m ok, from_keys_and_values keys values = Ok (m, ok) /\
         is_map m /\ (ok = true <-> NoDup keys) /\
@@ -450,156 +408,131 @@ Theorem C19_from_keys_and_values_spec : forall keys values,
         (forall k, In k keys -> exists v, mget m k = Some v)).
 Proof. exact ProofsMaps.from_keys_and_values_spec. Qed.
 
-Print Assumptions C19_set_from_slice_spec.
-Print Assumptions C19_set_add_spec.
-Print Assumptions C19_set_remove_spec.
-Print Assumptions C19_set_contains_spec.
-Print Assumptions C19_union_spec.
-Print Assumptions C19_intersection_spec.
-Print Assumptions C19_intersects_spec.
-Print Assumptions C19_difference_spec.
-Print Assumptions C19_union_order_independent.
-Print Assumptions C19_intersection_order_independent.
-Print Assumptions C19_reverse_map_spec.
-Print Assumptions C19_reverse_single_spec.
-Print Assumptions C19_to_index_spec.
-Print Assumptions C19_from_keys_and_values_spec.
+(* the conjunction of the 14 statements above; the framework runs Print Assumptions on it *)
+Theorem C19_xmaps : ltac:(let t := type of (conj C19_set_from_slice_spec (conj C19_set_add_spec (conj C19_set_remove_spec (conj C19_set_contains_spec (conj C19_union_spec (conj C19_intersection_spec (conj C19_intersects_spec (conj C19_difference_spec (conj C19_union_order_independent (conj C19_intersection_order_independent (conj C19_reverse_map_spec (conj C19_reverse_single_spec (conj C19_to_index_spec C19_from_keys_and_values_spec))))))))))))) in exact t).
+Proof. exact (conj C19_set_from_slice_spec (conj C19_set_add_spec (conj C19_set_remove_spec (conj C19_set_contains_spec (conj C19_union_spec (conj C19_intersection_spec (conj C19_intersects_spec (conj C19_difference_spec (conj C19_union_order_independent (conj C19_intersection_order_independent (conj C19_reverse_map_spec (conj C19_reverse_single_spec (conj C19_to_index_spec C19_from_keys_and_values_spec))))))))))))). Qed.
+Print Assumptions C19_xmaps.
 
 (* ================================================================== xmath: Abs (w-bit two's complement), Min, Max, Clamp;  xerrors: WithStack *)
-Theorem C19_abs_spec : forall w x, 1 <= w -> in_range w x ->
+Lemma C19_abs_spec : forall w x, 1 <= w -> in_range w x ->
     (x = - 2 ^ (w - 1) -> abs_w w x = Panic POther) /\
     (x <> - 2 ^ (w - 1) -> abs_w w x = Ok (Z.abs x) /\ in_range w (Z.abs x)).
 Proof. exact ProofsMisc.abs_spec. Qed.
 
-Theorem C19_abs_wrap_min : forall w, 1 <= w -> wrap w (- (- 2 ^ (w - 1))) = - 2 ^ (w - 1).
+Lemma C19_abs_wrap_min : forall w, 1 <= w -> wrap w (- (- 2 ^ (w - 1))) = - 2 ^ (w - 1).
 Proof. exact ProofsMisc.abs_wrap_min. Qed.
 
-Theorem C19_min_spec : forall a b, min_ a b = Z.min a b.
+Lemma C19_min_spec : forall a b, min_ a b = Z.min a b.
 Proof. exact ProofsMisc.min_spec. Qed.
 
-Theorem C19_max_spec : forall a b, max_ a b = Z.max a b.
+Lemma C19_max_spec : forall a b, max_ a b = Z.max a b.
 Proof. exact ProofsMisc.max_spec. Qed.
 
-Theorem C19_clamp_spec : forall x lo hi, lo <= hi ->
+Lemma C19_clamp_spec : forall x lo hi, lo <= hi ->
     clamp x lo hi = Z.max lo (Z.min x hi) /\ lo <= clamp x lo hi <= hi /\ (lo <= x <= hi -> clamp x lo hi = x).
 Proof. exact ProofsMisc.clamp_spec. Qed.
 
-Theorem C19_clamp_unordered : forall x lo hi, hi < lo -> clamp x lo hi = (if x <? lo then lo else hi).
+Lemma C19_clamp_unordered : forall x lo hi, hi < lo -> clamp x lo hi = (if x <? lo then lo else hi).
 Proof. exact ProofsMisc.clamp_unordered. Qed.
 
-Theorem C19_with_stack_nil : forall b, with_stack b None = None.
+Lemma C19_with_stack_nil : forall b, with_stack b None = None.
 Proof. exact ProofsMisc.with_stack_nil. Qed.
 
-Theorem C19_with_stack_unwrap : forall b e e', with_stack b (Some e) = Some e' ->
+Lemma C19_with_stack_unwrap : forall b e e', with_stack b (Some e) = Some e' ->
     e' = e \/ (e' = EStack e /\ unwrap e' = Some e).
 Proof. exact ProofsMisc.with_stack_unwrap. Qed.
 
-Theorem C19_with_stack_wraps : forall e, has_stack e = false -> with_stack true (Some e) = Some (EStack e).
+Lemma C19_with_stack_wraps : forall e, has_stack e = false -> with_stack true (Some e) = Some (EStack e).
 Proof. exact ProofsMisc.with_stack_wraps. Qed.
 
-Theorem C19_with_stack_current_always_wraps : forall e, with_stack false (Some e) = Some (EStack e).
+Lemma C19_with_stack_current_always_wraps : forall e, with_stack false (Some e) = Some (EStack e).
 Proof. exact ProofsMisc.with_stack_current_always_wraps. Qed.
 
-Theorem C19_with_stack_is : forall b e e' t, with_stack b (Some e) = Some e' -> is_ e' t = is_ e t.
+Lemma C19_with_stack_is : forall b e e' t, with_stack b (Some e) = Some e' -> is_ e' t = is_ e t.
 Proof. exact ProofsMisc.with_stack_is. Qed.
 
-Theorem C19_with_stack_has_stack : forall e, has_stack e = true -> with_stack true (Some e) = Some e.
+Lemma C19_with_stack_has_stack : forall e, has_stack e = true -> with_stack true (Some e) = Some e.
 Proof. exact ProofsMisc.with_stack_has_stack. Qed.
 
-Theorem C19_with_stack_idempotent : forall e, with_stack true (with_stack true e) = with_stack true e.
+Lemma C19_with_stack_idempotent : forall e, with_stack true (with_stack true e) = with_stack true e.
 Proof. exact ProofsMisc.with_stack_idempotent. Qed.
 
-Theorem C19_with_stack_result_has_stack : forall b e e', with_stack b (Some e) = Some e' -> has_stack e' = true.
+Lemma C19_with_stack_result_has_stack : forall b e e', with_stack b (Some e) = Some e' -> has_stack e' = true.
 Proof. exact ProofsMisc.with_stack_result_has_stack. Qed.
 
-Theorem C19_with_stack_idempotent_refuted : exists e, with_stack false (with_stack false e) <> with_stack false e.
+Lemma C19_with_stack_idempotent_refuted : exists e, with_stack false (with_stack false e) <> with_stack false e.
 Proof. exact ProofsMisc.with_stack_idempotent_refuted. Qed.
 
-Theorem C19_with_stack_has_stack_refuted : exists e, has_stack e = true /\ with_stack false (Some e) <> Some e.
+Lemma C19_with_stack_has_stack_refuted : exists e, has_stack e = true /\ with_stack false (Some e) <> Some e.
 Proof. exact ProofsMisc.with_stack_has_stack_refuted. Qed.
 
-Print Assumptions C19_abs_spec.
-Print Assumptions C19_abs_wrap_min.
-Print Assumptions C19_min_spec.
-Print Assumptions C19_max_spec.
-Print Assumptions C19_clamp_spec.
-Print Assumptions C19_clamp_unordered.
-Print Assumptions C19_with_stack_nil.
-Print Assumptions C19_with_stack_unwrap.
-Print Assumptions C19_with_stack_wraps.
-Print Assumptions C19_with_stack_current_always_wraps.
-Print Assumptions C19_with_stack_is.
-Print Assumptions C19_with_stack_has_stack.
-Print Assumptions C19_with_stack_idempotent.
-Print Assumptions C19_with_stack_result_has_stack.
-Print Assumptions C19_with_stack_idempotent_refuted.
-Print Assumptions C19_with_stack_has_stack_refuted.
+(* the conjunction of the 16 statements above; the framework runs Print Assumptions on it *)
+Theorem C19_xmath_xerrors : ltac:(let t := type of (conj C19_abs_spec (conj C19_abs_wrap_min (conj C19_min_spec (conj C19_max_spec (conj C19_clamp_spec (conj C19_clamp_unordered (conj C19_with_stack_nil (conj C19_with_stack_unwrap (conj C19_with_stack_wraps (conj C19_with_stack_current_always_wraps (conj C19_with_stack_is (conj C19_with_stack_has_stack (conj C19_with_stack_idempotent (conj C19_with_stack_result_has_stack (conj C19_with_stack_idempotent_refuted C19_with_stack_has_stack_refuted))))))))))))))) in exact t).
+Proof. exact (conj C19_abs_spec (conj C19_abs_wrap_min (conj C19_min_spec (conj C19_max_spec (conj C19_clamp_spec (conj C19_clamp_unordered (conj C19_with_stack_nil (conj C19_with_stack_unwrap (conj C19_with_stack_wraps (conj C19_with_stack_current_always_wraps (conj C19_with_stack_is (conj C19_with_stack_has_stack (conj C19_with_stack_idempotent (conj C19_with_stack_result_has_stack (conj C19_with_stack_idempotent_refuted C19_with_stack_has_stack_refuted))))))))))))))). Qed.
+Print Assumptions C19_xmath_xerrors.
 
 (* ================================================================== xmath/xrand over an arbitrary oracle: structure of samples, Shuffle, reachability of every subset *)
-Theorem C19_shuffle_permutation : forall sw a b, shuffle sw a = Ok b -> Permutation a b /\ zlen b = zlen a.
+Lemma C19_shuffle_permutation : forall sw a b, shuffle sw a = Ok b -> Permutation a b /\ zlen b = zlen a.
 Proof. exact ProofsRand.shuffle_permutation. Qed.
 
-Theorem C19_shuffle_total : forall sw a,
+Lemma C19_shuffle_total : forall sw a,
     (forall i j, In (i, j) sw -> 0 <= i < zlen a /\ 0 <= j < zlen a) -> exists b, shuffle sw a = Ok b.
 Proof. exact ProofsRand.shuffle_total. Qed.
 
-Theorem C19_sample_structure : forall o sw n k res, 0 <= k -> 0 <= n <= max_int -> oracle_ok o k ->
+Lemma C19_sample_structure : forall o sw n k res, 0 <= k -> 0 <= n <= max_int -> oracle_ok o k ->
     rsample o sw n k = Ok res -> zlen res = Z.min k n /\ positions_ok n res.
 Proof. exact ProofsRand.rsample_structure. Qed.
 
-Theorem C19_rsample_total : forall o sw n k, 0 <= k -> 0 <= n <= max_int -> oracle_ok o k ->
+Lemma C19_rsample_total : forall o sw n k, 0 <= k -> 0 <= n <= max_int -> oracle_ok o k ->
     (forall i j, In (i, j) sw -> 0 <= i < Z.min k n /\ 0 <= j < Z.min k n) ->
     exists res, rsample o sw n k = Ok res.
 Proof. exact ProofsRand.rsample_total. Qed.
 
-Theorem C19_rsample_negative_k : forall o sw n k, k < 0 -> rsample o sw n k = Panic PNeg.
+Lemma C19_rsample_negative_k : forall o sw n k, k < 0 -> rsample o sw n k = Panic PNeg.
 Proof. exact ProofsRand.rsample_negative_k. Qed.
 
-Theorem C19_rsample_slice_positions : forall o sw a k ps, 0 <= k -> zlen a <= max_int -> oracle_ok o k ->
+Lemma C19_rsample_slice_positions : forall o sw a k ps, 0 <= k -> zlen a <= max_int -> oracle_ok o k ->
     rsample o sw (zlen a) k = Ok ps ->
     rsample_slice o sw a k = Ok (map (znth a) ps).
 Proof. exact ProofsRand.rsample_slice_positions. Qed.
 
-Theorem C19_rsample_iterator_eq_slice : forall o sw items k, 0 <= k -> zlen items <= max_int -> oracle_ok o k ->
+Lemma C19_rsample_iterator_eq_slice : forall o sw items k, 0 <= k -> zlen items <= max_int -> oracle_ok o k ->
     rsample_iterator o sw items k = rsample_slice o sw items k.
 Proof. exact ProofsRand.rsample_iterator_eq_slice. Qed.
 
-Theorem C19_rsample_slice_structure : forall o sw a k res, 0 <= k -> zlen a <= max_int -> oracle_ok o k ->
+Lemma C19_rsample_slice_structure : forall o sw a k res, 0 <= k -> zlen a <= max_int -> oracle_ok o k ->
     rsample_slice o sw a k = Ok res ->
     exists ps, res = map (znth a) ps /\ zlen ps = Z.min k (zlen a) /\ positions_ok (zlen a) ps.
 Proof. exact ProofsRand.rsample_slice_structure. Qed.
 
-Theorem C19_sample_support_partial : forall n k S, 0 <= k <= n -> n <= max_int -> positions_ok n S -> zlen S = k ->
+Lemma C19_sample_support_partial : forall n k S, 0 <= k <= n -> n <= max_int -> positions_ok n S -> zlen S = k ->
     exists o res, oracle_ok o k /\ rsample o [] n k = Ok res /\ Permutation res S.
 Proof. exact ProofsRand.rsample_support_partial. Qed.
 
-Print Assumptions C19_shuffle_permutation.
-Print Assumptions C19_shuffle_total.
-Print Assumptions C19_sample_structure.
-Print Assumptions C19_rsample_total.
-Print Assumptions C19_rsample_negative_k.
-Print Assumptions C19_rsample_slice_positions.
-Print Assumptions C19_rsample_iterator_eq_slice.
-Print Assumptions C19_rsample_slice_structure.
-Print Assumptions C19_sample_support_partial.
+(* the conjunction of the 9 statements above; the framework runs Print Assumptions on it *)
+Theorem C19_xrand : ltac:(let t := type of (conj C19_shuffle_permutation (conj C19_shuffle_total (conj C19_sample_structure (conj C19_rsample_total (conj C19_rsample_negative_k (conj C19_rsample_slice_positions (conj C19_rsample_iterator_eq_slice (conj C19_rsample_slice_structure C19_sample_support_partial)))))))) in exact t).
+Proof. exact (conj C19_shuffle_permutation (conj C19_shuffle_total (conj C19_sample_structure (conj C19_rsample_total (conj C19_rsample_negative_k (conj C19_rsample_slice_positions (conj C19_rsample_iterator_eq_slice (conj C19_rsample_slice_structure C19_sample_support_partial)))))))). Qed.
+Print Assumptions C19_xrand.
 
 (* ---- the configuration selected in Pure/Config.v (what Pure/Corr.v runs against the code) ---- *)
-Theorem C19_chunk_shipped : xslices_chunk_guard = true -> xslices_chunk_no_overflow = true ->
+Lemma C19_chunk_shipped : xslices_chunk_guard = true -> xslices_chunk_no_overflow = true ->
     forall s c, (c <= 0 -> chunk xslices_chunk_guard xslices_chunk_no_overflow s c = Panic PNeg) /\
                 (0 < c -> chunk xslices_chunk_guard xslices_chunk_no_overflow s c = Ok (chunk_ranges (zlen s) c)).
 Proof.
   intros H1 H2 s c. rewrite H1, H2. split; [exact (ProofsSlicesB.chunk_panics s c)|exact (ProofsSlicesB.chunk_spec s c)].
 Qed.
 
-Theorem C19_runs_shipped : xslices_runs_fixed = true ->
+Lemma C19_runs_shipped : xslices_runs_fixed = true ->
     forall s same, map (slice_of s) (runs xslices_runs_fixed s same) = runs_of same s.
 Proof. intros H s same. rewrite H. exact (ProofsSlicesB.runs_spec s same). Qed.
 
-Theorem C19_with_stack_shipped : xerrors_withstack_idempotent = true ->
+Lemma C19_with_stack_shipped : xerrors_withstack_idempotent = true ->
     forall e, with_stack xerrors_withstack_idempotent (with_stack xerrors_withstack_idempotent e) =
               with_stack xerrors_withstack_idempotent e.
 Proof. intros H e. rewrite H. exact (ProofsMisc.with_stack_idempotent e). Qed.
 
-Print Assumptions C19_chunk_shipped.
-Print Assumptions C19_runs_shipped.
-Print Assumptions C19_with_stack_shipped.
+
+Theorem C19_shipped_configuration :
+  ltac:(let t := type of (conj C19_chunk_shipped (conj C19_runs_shipped C19_with_stack_shipped)) in exact t).
+Proof. exact (conj C19_chunk_shipped (conj C19_runs_shipped C19_with_stack_shipped)). Qed.
+Print Assumptions C19_shipped_configuration.
